@@ -35,6 +35,12 @@ EXTENDS Integers, Sequences, FiniteSets, TLC, Tables_angular, Obs_bandlimit
 \*                  still empty); "judge": judge the recorded observations
 \*   ObsB           sequence of records [method, degs (sequence), nsplines, nonzero (sequence:
 \*                  per shell, number of leading rows up to the last non-zero knot)]
+\*                  audit extension - every record also carries HOW the grid was requested:
+\*                  route ("degrees" | "sizes" | "pruned" | "pruned-sizes"), req (requested degrees
+\*                  or sizes: per shell, a single broadcast value, or per sector), nshell, rmilli
+\*                  (shell radii in 1/1000 bohr, pruned routes), bounds (sector bounds, 1/1000
+\*                  bohr), spell (index of the spelling of the method name handed to the
+\*                  constructor), obsdegs (judge phase: the degrees the built grid reports)
 
 Force(f_) == IF f_ = f_ THEN f_ ELSE f_
 
@@ -60,6 +66,59 @@ KnotIsComponent(ds_, l_, m_) == l_ <= AdmL(ds_)
 Supported == Force([mt_ \in Methods |-> {DegTab[mt_][i_][1] : i_ \in 1..Len(DegTab[mt_])}])
 SupportedUpTo(mt_, dmax_) == {d_ \in Supported[mt_] : d_ <= dmax_}
 
+\* ---- construction routes (audit extension) ---------------------------------------------
+\* The statement speaks about the degrees d_i the shells HAVE.  They follow from the request:
+\*   "degrees"       one degree per shell (a single one is broadcast to every shell); a degree
+\*                   that is not tabulated is replaced by the next larger tabulated one
+\*   "sizes"         the same with numbers of points per shell (next larger tabulated size)
+\*   "pruned"        sector bounds b_1 < .. < b_Q and one degree per sector (Q + 1 of them):
+\*                   shell i lies in sector 1 + #{j : r_i > b_j}
+\*   "pruned-sizes"  the same with one size per sector
+\* Radii and bounds are integers (1/1000 bohr), never equal to each other (the library and its
+\* documentation disagree about a radius exactly on a bound; that is not C09's business).
+SizeSet == Force([mt_ \in Methods |-> {DegTab[mt_][i_][2] : i_ \in 1..Len(DegTab[mt_])}])
+DegOfSize(mt_, s_) == DegTab[mt_][CHOOSE j_ \in 1..Len(DegTab[mt_]) : DegTab[mt_][j_][2] = s_][1]
+SizeOfDeg(mt_, d_) == DegTab[mt_][CHOOSE j_ \in 1..Len(DegTab[mt_]) : DegTab[mt_][j_][1] = d_][2]
+EffDeg(mt_, d_) == MinS({x_ \in Supported[mt_] : x_ >= d_})
+EffDegOfSize(mt_, s_) == DegOfSize(mt_, MinS({x_ \in SizeSet[mt_] : x_ >= s_}))
+Broadcast(sq_, n_) == IF Len(sq_) = 1 THEN [i_ \in 1..n_ |-> sq_[1]] ELSE sq_
+SectorOf(r_, bounds_) == 1 + Cardinality({j_ \in 1..Len(bounds_) : r_ > bounds_[j_]})
+Routes == {"degrees", "sizes", "pruned", "pruned-sizes"}
+ActualDegs(c_) ==
+    CASE c_.route = "degrees" ->
+            LET q_ == Broadcast(c_.req, c_.nshell) IN [i_ \in 1..c_.nshell |-> EffDeg(c_.method, q_[i_])]
+      [] c_.route = "sizes" ->
+            LET q_ == Broadcast(c_.req, c_.nshell) IN [i_ \in 1..c_.nshell |-> EffDegOfSize(c_.method, q_[i_])]
+      [] c_.route = "pruned" ->
+            [i_ \in 1..c_.nshell |-> EffDeg(c_.method, c_.req[SectorOf(c_.rmilli[i_], c_.bounds)])]
+      [] c_.route = "pruned-sizes" ->
+            [i_ \in 1..c_.nshell |-> EffDegOfSize(c_.method, c_.req[SectorOf(c_.rmilli[i_], c_.bounds)])]
+\* spellings of the method names a constructor must accept (it documents the lower-case names and
+\* lower-cases what it is given)
+Spell == [lebedev |-> <<"lebedev", "Lebedev", "LEBEDEV">>, spherical |-> <<"spherical", "Spherical", "SPHERICAL">>,
+          maxdet |-> <<"maxdet", "MaxDet", "MAXDET">>,
+          ahrens_beylkin |-> <<"ahrens_beylkin", "Ahrens_Beylkin", "AHRENS_BEYLKIN">>]
+\* (only the plain constructor taking degrees does so; the routes through sizes / sectors hand the name on as given,
+\* and C09 is not about names: they get the documented lower-case name)
+MethodArg(c_) == IF c_.route = "degrees" THEN Spell[c_.method][1 + c_.spell] ELSE c_.method
+\* laws of the routes, for every method and every request up to DMax (constant level):
+\* rounding goes up to a tabulated value, is minimal and idempotent, never lowers the band limit
+\* the request asked for, and the size route is the inverse of the degree route on the table
+RouteLaws ==
+    /\ DOMAIN Spell = Methods
+    /\ \A mt_ \in Methods :
+         /\ \A d_ \in 0..DMax :
+              LET e_ == EffDeg(mt_, d_) IN
+              /\ e_ \in Supported[mt_] /\ e_ >= d_
+              /\ \A x_ \in Supported[mt_] : x_ >= d_ => e_ <= x_
+              /\ EffDeg(mt_, e_) = e_
+              /\ e_ \div 2 >= d_ \div 2
+              /\ EffDegOfSize(mt_, SizeOfDeg(mt_, e_)) = e_
+              /\ LET s_ == SizeOfDeg(mt_, e_) - 1   g_ == SizeOfDeg(mt_, EffDegOfSize(mt_, s_)) IN
+                    g_ >= s_ /\ \A t_ \in SizeSet[mt_] : t_ >= s_ => g_ <= t_
+         /\ \A i_ \in 1..(Len(DegTab[mt_]) - 1) :
+              DegTab[mt_][i_][1] < DegTab[mt_][i_ + 1][1] /\ DegTab[mt_][i_][2] < DegTab[mt_][i_ + 1][2]
+
 \* ---- state machine: one degree sequence per state -------------------------------
 VARIABLES bk, bmeth, bds, bobs
 bvars == <<bk, bmeth, bds, bobs>>
@@ -73,7 +132,7 @@ BExtend == /\ bk \in {"method", "seq"} /\ Len(bds) < NShell
            /\ bk' = "seq" /\ UNCHANGED <<bmeth, bobs>>
 \* observations recorded from the implementation, one per state
 BPickObs == /\ bk = "idle" /\ Len(ObsB) > 0
-            /\ \E k_ \in 1..Len(ObsB) : bobs' = k_ /\ bmeth' = ObsB[k_].method /\ bds' = ObsB[k_].degs
+            /\ \E k_ \in 1..Len(ObsB) : bobs' = k_ /\ bmeth' = ObsB[k_].method /\ bds' = ActualDegs(ObsB[k_])
             /\ bk' = "obs"
 BNext == BPickMethod \/ BExtend \/ BPickObs
 BSpec == BInit /\ [][BNext]_bvars
@@ -114,15 +173,71 @@ ObsConforms ==
            /\ Range(bds) \subseteq Supported[bmeth]
         \/ PrintT(<<"MISMATCH", bobs, bmeth, bds, BasisSize(bds), [i_ \in Shells |-> Retained(bds, i_)], o_.nsplines, o_.nonzero>>)
 
+\* the degrees the built grid reports are the ones the route prescribes
+RouteConforms ==
+    bk = "obs" /\ Phase = "judge" =>
+        LET o_ == ObsB[bobs] IN
+        \/ o_.obsdegs = ActualDegs(o_) /\ o_.route \in Routes
+        \/ PrintT(<<"MISMATCH-ROUTE", bobs, bmeth, o_.route, o_.req, ActualDegs(o_), o_.obsdegs>>)
+
+\* ---- what the interpolant's callable returns (audit extension) ---------------------------
+\* call (points, deriv, deriv_spherical, only_radial_deriv).  The statement names three kinds of
+\* reported derivatives: Cartesian, spherical, radial-only.
+\*   deriv = 0                       the values, whatever the switches say
+\*   only_radial_deriv               the deriv-th radial derivative (wins over deriv_spherical)
+\*   deriv = 1, deriv_spherical      (d/dr, d/dtheta, d/dphi) of SUM s_k(r) Y_k(theta, phi)
+\*   deriv = 1                       Cartesian gradient
+\*   deriv >= 2 without radial-only  nothing is promised (the library refuses)
+Derivs == 0..3
+CallModes == Derivs \X BOOLEAN \X BOOLEAN
+ModeKinds == {"value", "radial", "spherical", "cartesian", "unspecified"}
+ModeKind(md_) == IF md_[1] = 0 THEN "value"
+                 ELSE IF md_[3] THEN "radial"
+                 ELSE IF md_[1] = 1 THEN (IF md_[2] THEN "spherical" ELSE "cartesian")
+                 ELSE "unspecified"
+\* classes of evaluation points (quantifier: all evaluation points incl. the centre and the z axis)
+\*   polar: 0 = generic angles, 1 = phi = 0 exactly, 2 = phi = pi exactly
+\*   "outside" / "inside": beyond the last / below the first radial node (the splines extrapolate;
+\*   the statement defines the interpolant as SUM spline x harmonic there as well)
+\*   the centre has the canonical angles theta = phi = 0; the sum SUM s_k(r) Y_k(direction) has no
+\*   Cartesian gradient there unless only s_00 survives, so that kind is not demanded at the centre
+PointClasses == {"generic", "outside", "inside", "north", "south", "centre"}
+PolarCode(pc_) == IF pc_ \in {"north", "centre"} THEN 1 ELSE IF pc_ = "south" THEN 2 ELSE 0
+DemandedKinds(pc_) == IF pc_ = "centre" THEN {"value", "radial", "spherical"}
+                      ELSE {"value", "radial", "spherical", "cartesian"}
+\* on the axis (sin(phi) = 0, r > 0) the Jacobian of spherical coordinates is singular; the gradient
+\* of the (smooth) interpolant is taken along the two meridians theta = 0 and theta = pi/2:
+\*   d/dx = (cos(phi) / r) d/dphi at theta = 0,   d/dy = (cos(phi) / r) d/dphi at theta = pi/2,
+\*   d/dz = cos(phi) d/dr;   AxisMeridian[c] = the meridian (in quarter turns) giving component c
+AxisMeridian == [x |-> 0, y |-> 1]
+CallModeLaws ==
+    /\ \A md_ \in CallModes : ModeKind(md_) \in ModeKinds
+    /\ {ModeKind(md_) : md_ \in CallModes} = ModeKinds
+    /\ \A n_ \in Derivs, s_ \in BOOLEAN : ModeKind(<<n_, s_, TRUE>>) = IF n_ = 0 THEN "value" ELSE "radial"
+    /\ \A md_ \in CallModes : ModeKind(md_) = "unspecified" <=> (md_[1] >= 2 /\ ~md_[3])
+    /\ \A s_ \in BOOLEAN, o_ \in BOOLEAN : ModeKind(<<0, s_, o_>>) = "value"
+    /\ \A pc_ \in PointClasses : DemandedKinds(pc_) \subseteq ModeKinds \ {"unspecified"}
+    /\ \A pc_ \in PointClasses : {"value", "radial", "spherical"} \subseteq DemandedKinds(pc_)
+    /\ \A pc_ \in PointClasses : ("cartesian" \in DemandedKinds(pc_)) <=> pc_ # "centre"
+    /\ \A pc_ \in PointClasses : PolarCode(pc_) # 0 <=> pc_ \in {"north", "south", "centre"}
+
 \* ---- emission of the expectations for the requested configurations ---------------------
 RECURSIVE SetToSeqB(_)
 SetToSeqB(S_) == IF S_ = {} THEN <<>> ELSE LET x_ == CHOOSE y_ \in S_ : TRUE IN <<x_>> \o SetToSeqB(S_ \ {x_})
 ExpectRec(k_) ==
-    LET ds_ == ObsB[k_].degs IN
-    [lmax |-> LMax(ds_), basisl |-> BasisL(ds_), nsplines |-> BasisSize(ds_), adml |-> AdmL(ds_),
+    LET ds_ == ActualDegs(ObsB[k_]) IN
+    [degs |-> ds_, method_arg |-> MethodArg(ObsB[k_]),
+     lmax |-> LMax(ds_), basisl |-> BasisL(ds_), nsplines |-> BasisSize(ds_), adml |-> AdmL(ds_),
      retained |-> [i_ \in 1..Len(ds_) |-> Retained(ds_, i_)],
      rows |-> LET sq_ == SetToSeqB(LMset(BasisL(ds_))) IN
               [j_ \in 1..Len(sq_) |-> <<sq_[j_][1], sq_[j_][2], Row(sq_[j_][1], sq_[j_][2]),
                                         IF KnotIsComponent(ds_, sq_[j_][1], sq_[j_][2]) THEN 1 ELSE 0>>]]
 ASSUME Phase # "expect" \/ JsonSerialize("bandlimit_expect.json", [k_ \in 1..Len(ObsB) |-> ExpectRec(k_)])
+ModeSeq == LET sq_ == SetToSeqB(CallModes) IN
+           [j_ \in 1..Len(sq_) |-> [deriv |-> sq_[j_][1], sph |-> sq_[j_][2], rad |-> sq_[j_][3], kind |-> ModeKind(sq_[j_])]]
+ClassSeq == LET sq_ == SetToSeqB(PointClasses) IN
+            [j_ \in 1..Len(sq_) |-> [name |-> sq_[j_], polar |-> PolarCode(sq_[j_]),
+                                     kinds |-> SetToSeqB(DemandedKinds(sq_[j_]))]]
+ASSUME Phase # "expect" \/ JsonSerialize("bandlimit_modes.json",
+                                         [modes |-> ModeSeq, classes |-> ClassSeq, meridian |-> AxisMeridian])
 =============================================================================
